@@ -37,6 +37,10 @@ fn triplets_from<T: Elem>(ts: &Value) -> Vec<(usize, usize, T)> {
 }
 fn usvec(v: &Value) -> Vec<usize> { ivec(v).iter().map(|x| (*x).max(0) as usize).collect() }
 fn tvec<T: Elem>(v: &Value) -> Vec<T> { ivec(v).iter().map(|x| T::from_ri(*x, 0)).collect() }
+/// vector components are integers, or the string "-0" (negative zero where the element type has one)
+fn tvec_z<T: Elem>(v: &Value) -> Vec<T> {
+    v.as_array().map(|a| a.iter().map(|x| match x.as_i64() { Some(n) => T::from_ri(n, 0), None => -T::from_ri(0, 0) }).collect()).unwrap_or_default()
+}
 fn jtv<T: Elem>(v: &Vector<T>) -> Value { Value::from(v.vec.iter().map(val_i).collect::<Vec<i64>>()) }
 /// the four views of C06, each call on the real object
 fn add_views<T: Elem>(s: &Sparse<T>, e: &mut Value) {
@@ -88,17 +92,33 @@ fn products<T: Elem>(s: &Sparse<T>, st: &Value, e: &mut Value) {
         let dm = s.to_dense();
         let dx = dm.multiply(&x);
         let dty = dm.transpose().multiply(&y);
-        (yax, atyx, vec![jtv(&ax), jtv(&aty), jtv(&tax), jtv(&ttx), jtv(&sax), jtv(&saty), jtv(&ax2), jtv(&aty2), jtv(&dx), jtv(&dty)])
+        // battery of vectors with exact zeros (unit vectors, zeros first / last / alternating, a single
+        // non-zero entry, all zero, negative zero): every kind of product on each pair
+        let mut zr: Vec<Value> = vec![]; let mut zxp: Vec<Value> = vec![]; let mut zyp: Vec<Value> = vec![];
+        let empty = vec![];
+        let zxs = st.get("zx").and_then(|v| v.as_array()).unwrap_or(&empty);
+        let zys = st.get("zy").and_then(|v| v.as_array()).unwrap_or(&empty);
+        for (vx, vy) in zxs.iter().zip(zys.iter()) {
+            let zx = Vector::create(tvec_z::<T>(vx)); let zy = Vector::create(tvec_z::<T>(vy));
+            let (zax, zaty) = (s.multiply(&zx), s.transpose_multiply(&zy));
+            zr.push(json!({"ax": jtv(&zax), "aty": jtv(&zaty), "tax": jtv(&t.multiply(&zy)), "ttx": jtv(&t.transpose_multiply(&zx)),
+                           "sax": jtv(&s2.multiply(&zx)), "saty": jtv(&s2.transpose_multiply(&zy)),
+                           "yax": val_i(&zy.dot(&zax)), "atyx": val_i(&zaty.dot(&zx))}));
+            zxp.push(jtv(&zx)); zyp.push(jtv(&zy));
+        }
+        (yax, atyx, vec![jtv(&ax), jtv(&aty), jtv(&tax), jtv(&ttx), jtv(&sax), jtv(&saty), jtv(&ax2), jtv(&aty2), jtv(&dx), jtv(&dty)], zr, zxp, zyp)
     });
     const KEYS: [&str; 10] = ["ax", "aty", "tax", "ttx", "sax", "saty", "ax2", "aty2", "dx", "dty"];
     match r {
-        Ok((yax, atyx, vs)) => {
+        Ok((yax, atyx, vs, zr, zxp, zyp)) => {
             e["panic"] = json!(false); e["yax"] = json!(yax); e["atyx"] = json!(atyx);
             for (k, v) in KEYS.iter().zip(vs.into_iter()) { e[*k] = v; }
+            e["zr"] = Value::from(zr); e["zx"] = Value::from(zxp); e["zy"] = Value::from(zyp);   // logged as integers (-0 -> 0)
         }
         Err(_) => {
             e["panic"] = json!(true); e["yax"] = json!(0); e["atyx"] = json!(0);
             for k in KEYS { e[k] = json!([]); }
+            e["zr"] = json!([]); e["zx"] = json!([]); e["zy"] = json!([]);
         }
     }
 }
@@ -211,9 +231,28 @@ fn rand_ctor(rng: &mut StdRng, r: usize, c: usize) -> (Value, Track) {
 fn distinct_vec(rng: &mut StdRng, n: usize) -> Value {
     let mut pool: Vec<i64> = (-15..=15).filter(|v| *v != 0).collect(); pool.shuffle(rng); pool.truncate(n); Value::from(pool)
 }
+/// vectors of length n with exact zeros; `kind`: 0.. = zeros first / last / even / odd positions, single non-zero
+/// entry, all zero, negative zeros ("-0") mixed with non-zero entries
+fn zero_vec(rng: &mut StdRng, n: usize, kind: usize) -> Value {
+    let base = ivec(&distinct_vec(rng, n));
+    let single = if n > 0 { rng.gen_range(0..n) } else { 0 };
+    Value::from((0..n).map(|k| {
+        let z = match kind { 0 => k == 0, 1 => k + 1 == n, 2 => k % 2 == 0, 3 => k % 2 == 1, 4 => k != single, 5 => true, _ => k % 3 != 1 };
+        if !z { json!(base[k]) } else if kind >= 6 { json!("-0") } else { json!(0) }
+    }).collect::<Vec<Value>>())
+}
+fn unit_vec(n: usize, k: usize, v: i64) -> Value { Value::from((0..n).map(|i| if n > 0 && i == k % n { v } else { 0 }).collect::<Vec<i64>>()) }
+/// the battery added to every products probe: e_k for every k (both vectors), then the seven zero patterns
+fn zero_battery(rng: &mut StdRng, rows: usize, cols: usize) -> (Value, Value) {
+    let (mut zx, mut zy) = (vec![], vec![]);
+    for k in 0..rows.max(cols) { let v = if rng.gen_bool(0.5) { 1 } else { nzval(rng) }; zx.push(unit_vec(cols, k, v)); zy.push(unit_vec(rows, k, if v == 1 { 1 } else { nzval(rng) })); }
+    for kind in 0..7 { zx.push(zero_vec(rng, cols, kind)); zy.push(zero_vec(rng, rows, kind)); }
+    (Value::from(zx), Value::from(zy))
+}
 fn products_step(rng: &mut StdRng, t: &Track) -> Value {
     let a: i64 = [-3i64, -2, -1, 0, 2, 3][rng.gen_range(0..6)];
-    json!({"op": "products", "x": distinct_vec(rng, t.cols), "y": distinct_vec(rng, t.rows), "a": a})
+    let (zx, zy) = zero_battery(rng, t.rows, t.cols);
+    json!({"op": "products", "x": distinct_vec(rng, t.cols), "y": distinct_vec(rng, t.rows), "a": a, "zx": zx, "zy": zy})
 }
 /// one modification of the given kind (0 insert new, 1 overwrite an existing entry with a DIFFERENT value,
 /// 2 scale, 3 transpose); None when the kind is impossible in this state; updates the bookkeeping
@@ -449,7 +488,7 @@ fn gen_c07(quick: bool, seed: u64, out: &mut Out) {
         }
     } }
     // (c) longer histories with a products event after every modification
-    for h in 0..(if quick { 50 } else { 300 }) {
+    for h in 0..(if quick { 30 } else { 300 }) {
         let (r, c) = (rng.gen_range(0..=10usize), rng.gen_range(0..=10usize));
         let (st, mut t) = rand_ctor(&mut rng, r, c);
         let mut steps = vec![st, products_step(&mut rng, &t)];
